@@ -31,7 +31,11 @@ def handle (j : J) : Except String J := do
   let chunks ← (← j.array "chunks").mapM J.asBytes
   let table ← (← j.array "table").mapM parseEntry
   let U := tableU table
-  let feed : CS Bytes → Bytes → CS Bytes := if side = "ctl" then ctlFeed U 8 else swFeed U
+  let disc ← match j.get? "disc" with
+    | some d => d.asArr >>= fun a => a.mapM J.asStr
+    | none => pure []
+  let D : Bytes → Bool := fun w => disc.contains (toHex w)
+  let feed : CS Bytes → Bytes → CS Bytes := if side = "ctl" then ctlFeedD U D 8 else swFeed U
   let (final, counts) := chunks.foldl (fun (acc : CS Bytes × List Nat) c =>
       let s' := feed acc.1 c; (s', acc.2 ++ [s'.delivered.length])) (init, [])
   pure (J.mk [("delivered", J.arr (final.delivered.map J.ofBytes)), ("buf", J.ofBytes final.buf),
